@@ -54,6 +54,18 @@ def sweep(ctx):
                     for op in (('tls_raw', 'tls_encrypted') if t == 255 else OPS):
                         cases.append((op, t, v, ln, 5 + ln, hdr + body))
                         cases.append((op, t, v, ln, 5 + ln + 2, hdr + body + b'\x16\x03'))
+    # long inputs: a complete record followed by so many bytes that the input length crosses 2^16 / 2^17 (a length kept in
+    # 16 bits would wrap: "bytes available" computed modulo 65536 turns a complete record into an incomplete one)
+    for ln in (1, 2, 300, 4096, 16640):
+        for r in (65535, 65536, 65536 + ln - 1, 65536 + ln, 65536 + ln + 1, 131072 + ln - 1, 131072 + ln // 2):
+            if r < ln:
+                continue
+            t = rng.choice((20, 21, 22, 23, 24, 0x80, 255))
+            v = rng.choice(VERS)
+            body = (b'\x01' * ln if t == 20 else b'\x01\x00' * (ln // 2) + b'\x01' * (ln % 2) if t == 21 else bytes(ln))
+            buf = bytes([t]) + v.to_bytes(2, 'big') + ln.to_bytes(2, 'big') + body + rng.randbytes(r - ln)
+            for op in (('tls_raw', 'tls_encrypted') if t not in (20, 23) or (t == 21 and ln % 2) else OPS):
+                cases.append((op, t, v, ln, len(buf), buf))
     return cases
 
 
@@ -141,7 +153,7 @@ def run(ctx):
     common.run_differential(ctx, mutants, common.proj_framing_line)
     common.lean_failure_violation(ctx, ok)
     return ctx.finish(LEVEL,
-        rule='sweep: 256 content types x boundary lengths {0,1,2,3,255,256,767,768,1023,1024,4095,4096,16383,16384,16639,16640,16641,32768,65535} x versions x prefixes around every boundary (all prefixes for short records) through the three record parsers, plus every registered version x lengths around the cap and other plausible limits x content types (the cap depends on neither), judged by the framing oracle of the property; plus well-formed records of every content type (exact values), strict prefixes (exact Needed), suffixes, length-field corruptions (differential under the framing projection); the coverage-guided corpus of the record parsers judged by the same framing oracle; distinct = (op, type class, length class, prefix class, outcome) resp. (family, outcome shape)',
+        rule='sweep: 256 content types x boundary lengths {0,1,2,3,255,256,767,768,1023,1024,4095,4096,16383,16384,16639,16640,16641,32768,65535} x versions x prefixes around every boundary (all prefixes for short records) through the three record parsers, plus every registered version x lengths around the cap and other plausible limits x content types (the cap depends on neither), and complete records followed by tails that carry the input length across 2^16 and 2^17, judged by the framing oracle of the property; plus well-formed records of every content type (exact values), strict prefixes (exact Needed), suffixes, length-field corruptions (differential under the framing projection); the coverage-guided corpus of the record parsers judged by the same framing oracle; distinct = (op, type class, length class, prefix class, outcome) resp. (family, outcome shape)',
         checker_cmd='cd /verif/lean && lake build TlsModel.Props.C02',
         assumptions=['inputs with fewer than 5 bytes: only "Incomplete" is demanded (the property fixes the count once the header is available)'])
 
